@@ -62,6 +62,10 @@ def main(tier):
                 runs.append((f"{rng.seed()}/{seed}/{observe}/{mode}", observe, mode, 140 if thorough else 80))
     for observe in ("server", "client"):
         runs.append((f"{rng.seed()}/burst/{observe}", observe, "burst", 100))
+    # dense trains: arrivals closer than the ack delay for longer than max_ack_delay
+    for seed in range(40 if thorough else 6):
+        for observe in ("server", "client"):
+            runs.append((f"{rng.seed()}/train{seed}/{observe}", observe, "train", 0))
     tot = {"lines": 0, "acks_written": 0, "ack_frames_checked": 0, "timely_checked": 0, "next_tx_checked": 0,
            "max_latency_ms": 0.0, "spins": 0}
     for seed, observe, mode, steps in runs:
@@ -99,7 +103,9 @@ def main(tier):
         "timers (soundness + next-transmission oracles), and an established connection where the peer's packets are injected "
         "at chosen numbers (next, +1, +2, +5, or up to 12 behind), 20% not ack-eliciting, datagrams (ACKs, ACK-of-ACK "
         "carriers) lost 25% / duplicated 15% / reordered, stream data both ways, time advancing 0..30 ms with every timer "
-        "fired exactly when get_timer() asks (all oracles); plus 800 alternate packet numbers with every ACK lost. "
+        "fired exactly when get_timer() asks (all oracles); plus 800 alternate packet numbers with every ACK lost; plus dense "
+        "trains of ack-eliciting packets 0.1-0.9 ms apart (below the 1 ms ack delay) lasting 50-100 ms (2x-4x max_ack_delay), "
+        "receiver idle or sending, its datagrams delivered or lost, clock advanced in sub-millisecond steps. "
         "Non-trivial = ACK frames were written and ACK-of-ACK deliveries pruned the queue."
     )
     return ctx.finish()
